@@ -22,6 +22,7 @@ import (
 	"errors"
 	"fmt"
 	"math/big"
+	"regexp"
 	"sort"
 	"strconv"
 	"strings"
@@ -120,6 +121,8 @@ func usedRules(xs ...*descr) []string {
 	return out
 }
 
+var rePrec = regexp.MustCompile(`\((\d+)\)$`)
+
 // invalidType reports grid points that are not types of the dialect at all (the server rejects them), so
 // the property does not claim anything about them.
 func invalidType(d *dialect, tc TypeCase) string {
@@ -137,12 +140,17 @@ func invalidType(d *dialect, tc TypeCase) string {
 	if tc.Src == "hcl" || tc.Src == "lit" {
 		sp := specByName(d, tc.Spec)
 		// interval fields take a precision of 0..6 only (postgres/convert.go reInterval: `(?:\(([0-6])\))?`).
-		if p, ok := arg("precision"); ok && sp != nil && sp.FromSpec != nil && p > 6 {
+		if p, ok := arg("precision"); ok && sp != nil && sp.Conv && p > 6 {
 			return "invalid-type:interval-precision>6"
 		}
 		// bit(0) / bit varying(0): "length for type bit must be at least 1".
 		if l, ok := arg("len"); ok && l == 0 {
 			return "invalid-type:bit-length-0"
+		}
+	}
+	if tc.Src == "parse" && strings.HasPrefix(tc.Text, "interval") {
+		if m := rePrec.FindStringSubmatch(tc.Text); m != nil && (len(m[1]) > 1 || m[1] > "6") {
+			return "invalid-type:interval-precision>6"
 		}
 	}
 	if tc.Src == "parse" && (strings.HasPrefix(tc.Text, "bit(0)") || strings.HasPrefix(tc.Text, "bit varying(0)") || strings.HasPrefix(tc.Text, "varbit(0)")) {
